@@ -12,6 +12,12 @@ Theorem srdhm32_eq_gemmlowp : forall a b,
   GenFpMath.saturating_rounding_mul32 a b = Some (SRDHM32 a b).
 Proof. exact srdhm32_eq_gemmlowp_lemma. Qed.
 
+(* its meaning: a*b / 2^31 rounded to the nearest integer, ties upward (floor of the nudged quotient) *)
+Theorem srdhm32_is_round_half_up : forall a b,
+  in_int 32 a = true -> in_int 32 b = true -> (a =? b) && (a =? -2147483648) = false ->
+  SRDHM32 a b = (a * b + 2 ^ 30) / 2 ^ 31.
+Proof. exact srdhm32_round_half_up. Qed.
+
 Theorem srdhm32_in_range : forall a b,
   in_int 32 a = true -> in_int 32 b = true -> in_int 32 (SRDHM32 a b) = true.
 Proof. exact srdhm32_result_in_int32. Qed.
@@ -130,3 +136,34 @@ Print Assumptions mbqm_outside.
 Print Assumptions exp_on_interval_eq.
 Print Assumptions exp_on_negative_values_eq.
 Print Assumptions exp_on_negative_values_total.
+
+(* ---- integer-only tables: every entry equals the reference kernel's value ---- *)
+(* convert_lrelu_to_lut: all codes x of an int8/uint8 table, any int32 multipliers, shifts 9..62
+   (multiplier below 2^22), alpha_scalar = 1 *)
+Theorem lut_lrelu_correct : forall zi zo ids idsh als alsh qmin qmax x,
+  same8 x zi -> code8 zo ->
+  in_int 32 ids = true -> in_int 32 als = true -> 9 <= idsh <= 62 -> 9 <= alsh <= 62 ->
+  vela_lrelu_entry zi zo ids idsh 1 als alsh qmin qmax x =
+    Some (LeakyReluRef zi zo ids (31 - idsh) als (31 - alsh) qmin qmax x).
+Proof. exact lut_lrelu_correct_lemma. Qed.
+
+(* convert_hardswish_to_lut under Python-int evaluation of fp_math (see the check for NumPy scalars):
+   output multiplier exponent <= 0 as the reference kernel requires *)
+Theorem lut_hardswish_correct : forall zi zo os osh rs rsh qmin qmax x,
+  same8 x zi -> zo_ok zo osh ->
+  in_int 32 os = true -> in_int 32 rs = true -> 31 <= osh <= 46 -> 0 <= rsh <= 46 -> qmin <= qmax ->
+  vela_hardswish_entry zi zo os osh rs rsh qmin qmax x =
+    Some (HardSwishRef zi zo (DownScaleInt32ToInt16Multiplier rs) (31 - rsh)
+                       (DownScaleInt32ToInt16Multiplier os) (31 - osh) qmin qmax x).
+Proof. exact lut_hardswish_correct_lemma. Qed.
+
+(* optimise_quantize: int8->int8 / int16->int16 constant folding equals the reference Requantize *)
+Theorem optimise_quantize_fold_correct : forall zi zo m s qmin qmax v,
+  in_int 16 v = true -> in_int 16 zi = true -> -512 <= zo <= 511 -> in_int 32 m = true -> 16 <= s <= 62 ->
+  vela_requant_entry zi zo m s qmin qmax v = Some (RequantizeRef zi zo m (31 - s) qmin qmax v).
+Proof. exact quantize_fold_correct_lemma. Qed.
+
+Print Assumptions lut_lrelu_correct.
+Print Assumptions lut_hardswish_correct.
+Print Assumptions optimise_quantize_fold_correct.
+Print Assumptions srdhm32_is_round_half_up.
